@@ -288,6 +288,39 @@ def case_array(ctx, rng):
         judge_forms(ctx, op, forms, x.indices, fn(d, dy), w, charge=x.charge, nontrivial=(sig, struct_sig(y)) if diff else None)
         if op in ("add", "mul"):
             judge_forms(ctx, op + "_swapped", {"operator": lambda: fn(y, x)}, x.indices, fn(dy, d), w, charge=x.charge)
+        # operands whose matching legs list different charges (two results that dropped different
+        # charges): the sum is defined on the union of the two tables
+        if op == "add" and x.ndim and rng.random() < 0.25:
+            k_ = rng.randrange(x.ndim)
+            cm_y = dict(x.indices[k_].chargemap)
+            free_ = [c for c in gen.POOL[sym] if c not in cm_y]
+            if len(cm_y) >= 2 and rng.random() < 0.6:
+                del cm_y[rng.choice(sorted(cm_y))]
+            if free_ and rng.random() < 0.6:
+                cm_y[rng.choice(free_)] = rng.randint(1, 2)
+            if cm_y != dict(x.indices[k_].chargemap):
+                iy = list(x.indices)
+                iy[k_] = sr.BlockIndex(dict(sorted(cm_y.items())), dual=x.indices[k_].dual)
+                yr = gen.make_array(sr, rng, sym, iy, charge=x.charge, values=vals, kind="static" if type(x).static_symmetry else "generic_str", exotic=False)
+                un = dict(x.indices[k_].chargemap)
+                un.update(cm_y)
+                ref_u = list(x.indices)
+                ref_u[k_] = sr.BlockIndex(dict(sorted(un.items())), dual=x.indices[k_].dual)
+                try:
+                    exp_u = embed(x, ref_u) + embed(yr, ref_u)
+                except Exception:
+                    exp_u = None
+                if exp_u is not None and yr.blocks:
+                    ctx.count("feature", "addends-with-different-charge-lists")
+
+                    def ragged_inplace():
+                        t = x.copy()
+                        t += yr
+                        return t
+
+                    judge_forms(ctx, "add_ragged", {"operator": lambda: x + yr, "inplace": ragged_inplace}, ref_u, exp_u, dict(wit, y=describe(yr, True)), charge=x.charge, nontrivial=(sig, "ragged", k_))
+                    # (the swapped sum stores the same blocks in another order: judged on its own)
+                    judge_forms(ctx, "add_ragged_swapped", {"operator": lambda: yr + x}, ref_u, exp_u, dict(wit, y=describe(yr, True)), charge=x.charge)
         # augmented assignment with a partner that stores EXACTLY x's sectors, inserted in
         # another order (harness-built: y's values where it has them, zeros elsewhere)
         order = list(x.blocks)
